@@ -790,6 +790,59 @@ func c20Tile(c *Ctx, rule, spec string, outer, cl *ssa.Function) {
 
 // ---------------------------------------------------------------- R5a: NewChunker's manifest (writer side)
 
+// c20LinearIn is c20Linear with the parameters of a helper replaced by the arguments of its call.
+func c20LinearIn(v ssa.Value, env map[ssa.Value]ssa.Value) c20Lin {
+	l := c20Linear(v)
+	if env == nil {
+		return l
+	}
+	out := c20Lin{k: l.k}
+	for sign, list := range map[int64][]ssa.Value{1: l.pos, -1: l.neg} {
+		for _, leaf := range list {
+			sub := c20Lin{pos: []ssa.Value{leaf}}
+			if arg, ok := env[leaf]; ok {
+				sub = c20Linear(arg)
+			}
+			if sign < 0 {
+				sub.pos, sub.neg, sub.k = sub.neg, sub.pos, -sub.k
+			}
+			out.pos, out.neg, out.k = append(out.pos, sub.pos...), append(out.neg, sub.neg...), out.k+sub.k
+		}
+	}
+	return out
+}
+
+// c20ImpureIn lists what keeps a straight-line helper from being a pure function of its arguments.
+func c20ImpureIn(h *ssa.Function) (why []string) {
+	allInstrs(h, func(in ssa.Instruction) {
+		switch x := in.(type) {
+		case *ssa.Store:
+			base := x.Addr
+			if fa, ok := base.(*ssa.FieldAddr); ok {
+				base = fa.X
+			}
+			if _, local := base.(*ssa.Alloc); !local {
+				why = append(why, "store outside a local")
+			}
+		case *ssa.UnOp:
+			if x.Op == token.MUL {
+				base := x.X
+				if fa, ok := base.(*ssa.FieldAddr); ok {
+					base = fa.X
+				}
+				if _, local := base.(*ssa.Alloc); !local {
+					why = append(why, "load from non-local memory")
+				}
+			}
+		case ssa.CallInstruction:
+			if _, isBuiltin := x.Common().Value.(*ssa.Builtin); !isBuiltin {
+				why = append(why, "call")
+			}
+		}
+	})
+	return
+}
+
 // c20Acc describes how NewChunker derives file offsets.
 type c20Acc struct {
 	ok       bool
@@ -839,15 +892,18 @@ func c20Manifest(c *Ctx, p *Prog) (acc c20Acc) {
 		return
 	}
 	isLen := func(v ssa.Value) bool { return c20LenOf(v) == line }
-	// stores into the struct literal
+	// stores into the struct literal — built in NewChunker itself, or in a straight-line pure helper
+	// whose parameters are then replaced by the arguments of its call (values of NewChunker)
 	type fstore struct {
-		f *types.Var
-		v ssa.Value
-		a ssa.Value
+		f    *types.Var
+		v    ssa.Value // stored value (in the helper's terms when built there)
+		l    c20Lin    // its linear form in NewChunker's terms
+		a    ssa.Value // identity of the struct being built: the local, or the helper's call
+		elem ssa.Value // the struct value as it appears in NewChunker
 	}
 	var lenStore *fstore
 	var stores []fstore
-	allInstrs(fn, func(in ssa.Instruction) {
+	collect := func(in ssa.Instruction, env map[ssa.Value]ssa.Value, only *ssa.Alloc, id, elem ssa.Value) {
 		st, ok := in.(*ssa.Store)
 		if !ok {
 			return
@@ -856,17 +912,46 @@ func c20Manifest(c *Ctx, p *Prog) (acc c20Acc) {
 		if !ok {
 			return
 		}
-		if _, isAlloc := base.(*ssa.Alloc); !isAlloc {
+		al, isAlloc := base.(*ssa.Alloc)
+		if !isAlloc || (only != nil && al != only) {
 			return
 		}
-		fs := fstore{f, st.Val, base}
+		if id == nil {
+			id = al
+		}
+		fs := fstore{f: f, v: st.Val, l: c20LinearIn(st.Val, env), a: id, elem: elem}
 		stores = append(stores, fs)
-		l := c20Linear(st.Val)
-		for _, v := range append(append([]ssa.Value{}, l.pos...), l.neg...) {
+		for _, v := range append(append([]ssa.Value{}, fs.l.pos...), fs.l.neg...) {
 			if isLen(v) {
 				lenStore = &fs
 			}
 		}
+	}
+	allInstrs(fn, func(in ssa.Instruction) {
+		collect(in, nil, nil, nil, nil)
+		hc, h := c20OwnCallee(valueOf(in))
+		if h == nil || len(h.Blocks) != 1 || len(c20ImpureIn(h)) > 0 {
+			return
+		}
+		ret, ok := h.Blocks[0].Instrs[len(h.Blocks[0].Instrs)-1].(*ssa.Return)
+		if !ok || len(ret.Results) != 1 {
+			return
+		}
+		ld, ok := ret.Results[0].(*ssa.UnOp)
+		if !ok || ld.Op != token.MUL {
+			return
+		}
+		al, ok := ld.X.(*ssa.Alloc)
+		if !ok {
+			return
+		}
+		env := map[ssa.Value]ssa.Value{}
+		for i, prm := range h.Params {
+			if i < len(hc.Call.Args) {
+				env[prm] = hc.Call.Args[i]
+			}
+		}
+		allInstrs(h, func(in2 ssa.Instruction) { collect(in2, env, al, hc, hc) })
 	})
 	if lenStore == nil {
 		und(line.Pos(), "len(line) does not flow into a field of an appended struct")
@@ -886,7 +971,12 @@ func c20Manifest(c *Ctx, p *Prog) (acc c20Acc) {
 		und(line.Pos(), "manifest entry has no second offset field")
 		return
 	}
-	l := c20Linear(lenStore.v)
+	l := lenStore.l
+	l.pos, l.neg = append([]ssa.Value{}, l.pos...), append([]ssa.Value{}, l.neg...)
+	// otherIs: the second field is exactly the value v
+	otherIs := func(v ssa.Value) bool {
+		return len(other.l.pos) == 1 && len(other.l.neg) == 0 && other.l.k == 0 && other.l.pos[0] == v
+	}
 	switch {
 	case c20Take(&l.pos, isLen) != nil && len(l.pos) == 1 && len(l.neg) == 0:
 		// accumulate: end = curr + len(line) + K, start = curr, curr' = end
@@ -898,7 +988,7 @@ func c20Manifest(c *Ctx, p *Prog) (acc c20Acc) {
 		k0, isC := constOf(init)
 		bl := c20Linear(back)
 		sameBack := back == lenStore.v || (c20Take(&bl.pos, isLen) != nil && len(bl.pos) == 1 && bl.pos[0] == phi && len(bl.neg) == 0 && bl.k == l.k)
-		if !(isC && k0 == 0) || stripConv(other.v) != phi || !sameBack {
+		if !(isC && k0 == 0) || !otherIs(phi) || !sameBack {
 			c.Undec(rule, key, lenStore.v.Pos(), "manifest entry not recognised as {curr, curr+len(line)+K} with curr starting at 0 and advancing to that end")
 			return
 		}
@@ -906,7 +996,7 @@ func c20Manifest(c *Ctx, p *Prog) (acc c20Acc) {
 	case c20Take(&l.neg, isLen) != nil && len(l.neg) == 0 && len(l.pos) == 1:
 		// reader-side offset: end = reader.Offset(), start = end - len(line) - K
 		ocall, g := c20OwnCallee(l.pos[0])
-		if g == nil || stripConv(other.v) != ocall || len(ocall.Call.Args) != 1 || ocall.Call.Args[0] != acc.rcall.Call.Args[0] || !instrDominates(acc.rcall, ocall) {
+		if g == nil || !otherIs(ocall) || len(ocall.Call.Args) != 1 || ocall.Call.Args[0] != acc.rcall.Call.Args[0] || !instrDominates(acc.rcall, ocall) {
 			und(lenStore.v.Pos(), "start = e - len(line) - K where e is not an offset accessor called on the same reader after the read")
 			return
 		}
@@ -928,8 +1018,8 @@ func c20Manifest(c *Ctx, p *Prog) (acc c20Acc) {
 		return
 	}
 	// the entry is appended on every iteration and the result becomes the manifest
-	var elem ssa.Value
-	if lenStore.a.Referrers() != nil {
+	elem := lenStore.elem
+	if elem == nil && lenStore.a.Referrers() != nil {
 		for _, r := range *lenStore.a.Referrers() {
 			if u, ok := r.(*ssa.UnOp); ok && u.Op == token.MUL {
 				elem = u
